@@ -90,6 +90,32 @@ def scratch_base() -> pathlib.Path:
     raise HarnessError("no scratch directory available")
 
 
+def cleanup_stale_scratch() -> int:
+    """Remove scratch trees left behind by checker processes that no longer exist (a check killed by a
+    timeout cannot remove its own worlds).  Only directories named lspv-<pid>-… whose pid is dead."""
+    import re
+    import shutil
+
+    n = 0
+    base = scratch_base()
+    for d in base.glob("lspv-*"):
+        m = re.match(r"lspv-(?:mut-)?(\d+)-", d.name)
+        if not m:
+            continue
+        try:
+            os.kill(int(m.group(1)), 0)
+            continue  # still alive
+        except ProcessLookupError:
+            pass
+        except PermissionError:
+            continue
+        import shutil as _sh
+
+        _sh.rmtree(d, ignore_errors=True)
+        n += 1
+    return n
+
+
 # --------------------------------------------------------------------------------------------
 # pool
 # --------------------------------------------------------------------------------------------
